@@ -32,7 +32,11 @@ pub mod c13;
 #[cfg(feature = "full")]
 pub mod helpmodel;
 #[cfg(feature = "full")]
+pub mod c14;
+#[cfg(feature = "full")]
 pub mod c16;
+#[cfg(feature = "full")]
+pub mod comp;
 #[cfg(feature = "full")]
 pub mod c18;
 #[cfg(feature = "full")]
@@ -187,6 +191,7 @@ pub fn run_case(case: &mut Case) {
         "C11" => c11::run_case(case),
         "C12" => c12::run_case(case),
         "C13" => c13::run_case(case),
+        "C14" => c14::run_case(case),
         "C16" => c16::run_case(case),
         "C18" => c18::run_case(case),
         "C19" => c19::run_case(case),
